@@ -219,6 +219,13 @@ func (m *M) Violation(signature, detail string, witness any) {
 	m.flushLocked(false)
 }
 
+// Seen reports how often a coverage class has been evaluated so far.
+func (m *M) Seen(class string) int64 {
+	m.mu.Lock()
+	defer m.mu.Unlock()
+	return m.res.Classes[class]
+}
+
 func (m *M) Violations() int { m.mu.Lock(); defer m.mu.Unlock(); return len(m.res.Violations) }
 
 func (m *M) Inconclusive(reason string) {
